@@ -442,18 +442,29 @@ def corr_gate(ctx, pend, cfg, g, eps):
                          f"{cfg.name}/MProcess.convert_to_comp_basis({mode})[{i}]/m{m}")
 
 
+def sparse_stored(b):
+    """the same basis held as scipy-sparse matrices (as CompositeSystem.basis() holds it)"""
+    return mb.SparseMatrixBasis([np.array(x.toarray() if hasattr(x, "toarray") else x, dtype=np.complex128) for x in b])
+
+
 def other_bases(cfg):
-    """orthonormal bases of the same dimension to convert to / from"""
+    """orthonormal bases of the same dimension to convert to / from, stored dense (MatrixBasis, what the getters return) and
+    stored sparse (SparseMatrixBasis, what another CompositeSystem owns)"""
     d = cfg.d
-    out = [("comp_row", mb.get_comp_basis(d, "row_major")), ("comp_col", mb.get_comp_basis(d, "column_major"))]
+    row, col = mb.get_comp_basis(d, "row_major"), mb.get_comp_basis(d, "column_major")
+    out = [("comp_row", row), ("comp_col", col), ("comp_row/sparse", sparse_stored(row)), ("comp_col/sparse", sparse_stored(col))]
     if d == 2:
         out.append(("hermitian", mb.get_normalized_hermitian_basis(2)))
-        out.append(("rotated", cfg_of("qubit/rotated").c.basis()))
+        out.append(("rotated/sparse(c_sys)", cfg_of("qubit/rotated").c.basis()))
+        out.append(("rotated/dense", mb.MatrixBasis(list(dense_basis(cfg_of("qubit/rotated").c.basis())))))
     elif d == 3:
         out.append(("hermitian", mb.get_normalized_hermitian_basis(3)))
         out.append(("gellmann", mb.get_normalized_gell_mann_basis()))
+        out.append(("gellmann/sparse(c_sys)", cfg_of("qutrit/gellmann").c.basis()))
+        out.append(("rotated/sparse(c_sys)", cfg_of("qutrit/rotated").c.basis()))
     elif d == 4:
         out.append(("gengellmann", mb.get_normalized_generalized_gell_mann_basis(2, 2)))
+        out.append(("gengellmann/sparse", sparse_stored(mb.get_normalized_generalized_gell_mann_basis(2, 2))))
     return out
 
 
@@ -482,7 +493,7 @@ def corr_basis_change(ctx, pend, cfg, g):
                      f"{cfg.name}/convert_hs(->{oname})/{lab}")
             pend.add("convertHs", [n, n, cl(hs), d, n, obq, d, n, Bq], lambda hs=hs, ob=ob: G.convert_hs(hs, ob, c.basis()), "c",
                      f"{cfg.name}/convert_hs({oname}->)/{lab}")
-            if lab in ("physical", "nonphysical") and oname != "comp_col":
+            if lab in ("physical", "nonphysical"):
                 gate = Gate(c, hs.copy(), is_physicality_required=False)
                 pend.add("convertHs", [n, n, cl(hs), d, n, Bq, d, n, obq], lambda gate=gate, ob=ob: gate.convert_basis(ob), "c",
                          f"{cfg.name}/Gate.convert_basis(->{oname})/{lab}")
@@ -501,6 +512,20 @@ def corr_basis_change(ctx, pend, cfg, g):
         for i in range(2):
             pend.add("convertVec", [d, n, Bq, d, n, obq, cl(pv[i])], lambda povm=povm, ob=ob, i=i: povm.convert_basis(ob)[i], "c",
                      f"{cfg.name}/Povm.convert_basis(->{oname})[{i}]")
+        if c.is_orthonormal_hermitian_0thprop_identity:
+            hss2 = [g.standard_normal((n, n)) for _ in range(2)]
+            mp = MProcess(c, [h.copy() for h in hss2], is_physicality_required=False)
+            for i in range(2):
+                pend.add("convertHs", [n, n, cl(hss2[i]), d, n, Bq, d, n, obq], lambda mp=mp, ob=ob, i=i: mp.convert_basis(ob)[i], "c",
+                         f"{cfg.name}/MProcess.convert_basis(->{oname})[{i}]")
+        # matrix_util.vdot on every dense / sparse operand combination (complex, non-Hermitian operands)
+        from scipy import sparse as _sp
+        from quara.utils import matrix_util as _mu
+        a, b = rand_c(g, (d, d)), dense_basis(ob)[int(g.integers(0, n))] + 0.25j * rand_c(g, (d, d)).real
+        for ka, fa in (("dense", np.asarray), ("csr", _sp.csr_matrix), ("csc", _sp.csc_matrix)):
+            for kb, fb in (("dense", np.asarray), ("csr", _sp.csr_matrix), ("csc", _sp.csc_matrix)):
+                pend.add("vdot", [d, d, cl(a), cl(b)], lambda fa=fa, fb=fb, a=a, b=b: np.array([_mu.vdot(fa(a), fb(b))]), "c",
+                         f"{cfg.name}/matrix_util.vdot({ka},{kb})/{oname}")
     for mode in ("row_major", "column_major"):
         pend.add("compBasis", [d, mode], lambda mode=mode: dense_basis(c.comp_basis(mode)), "c", f"{cfg.name}/comp_basis({mode})")
         pend.add("compBasis", [d, mode], lambda mode=mode: dense_basis(mb.get_comp_basis(d, mode)), "c", f"{cfg.name}/get_comp_basis({mode})")
@@ -916,6 +941,28 @@ def chk_convert(cfg, other, hs, v):
     img2 = sum(x * b for x, b in zip(h2 @ v2, ob))
     need(dev(img2, img), "C02/convert_hs/same-operator", "the converted HS matrix acts differently on ρ")
     need(dev(call("C02/convert_hs", lambda: G.convert_hs(h2, other, c.basis())), hs), "C02/convert_hs/roundtrip", "there and back is not the identity")
+    # the object methods and the other storage of the same basis must give the same coefficients
+    kind = "sparse" if isinstance(other, mb.SparseMatrixBasis) else "dense"
+    twin = mb.MatrixBasis(list(ob)) if kind == "sparse" else sparse_stored(other)
+    need(dev(call("C02/convert_vec", lambda: mb.convert_vec(v, c.basis(), twin)), w), f"C02/convert_vec/storage({kind} vs other)", "dense- and sparse-stored target basis give different coefficients")
+    need(dev(call("C02/convert_hs", lambda: G.convert_hs(hs, c.basis(), twin)), h2), f"C02/convert_hs/storage({kind} vs other)", "dense- and sparse-stored target basis give different matrices")
+    st = State(c, np.asarray(v, dtype=np.float64).copy(), is_physicality_required=False)
+    need(dev(call("C02/State.convert_basis", lambda: st.convert_basis(other)), w), "C02/State.convert_basis/formula", "!= convert_vec")
+    gt = Gate(c, np.asarray(hs, dtype=np.float64).copy(), is_physicality_required=False)
+    need(dev(call("C02/Gate.convert_basis", lambda: gt.convert_basis(other)), h2), "C02/Gate.convert_basis/formula", "!= convert_hs")
+    pv = Povm(c, [np.asarray(v, dtype=np.float64).copy(), -np.asarray(v, dtype=np.float64)], is_physicality_required=False)
+    need(dev(call("C02/Povm.convert_basis", lambda: pv.convert_basis(other))[0], w), "C02/Povm.convert_basis/formula", "!= convert_vec")
+    if c.is_orthonormal_hermitian_0thprop_identity:
+        mp = MProcess(c, [np.asarray(hs, dtype=np.float64).copy(), np.asarray(hs, dtype=np.float64).T.copy()], is_physicality_required=False)
+        need(dev(call("C02/MProcess.convert_basis", lambda: mp.convert_basis(other))[0], h2), "C02/MProcess.convert_basis/formula", "!= convert_hs")
+    # matrix_util.vdot itself on every storage combination
+    from scipy import sparse as _sp
+    from quara.utils import matrix_util as _mu
+    a, b = rand_c(g, (cfg.d, cfg.d)), ob[1] + 0.5j * ob[-1]
+    for ka, fa in (("dense", np.asarray), ("csr", _sp.csr_matrix), ("csc", _sp.csc_matrix)):
+        for kb, fb in (("dense", np.asarray), ("csr", _sp.csr_matrix), ("csc", _sp.csc_matrix)):
+            r = call(f"C02/matrix_util.vdot({ka},{kb})", lambda: _mu.vdot(fa(a), fb(b)))
+            need(dev(np.array([r]), np.array([np.sum(a.conj() * b)])), f"C02/matrix_util.vdot({ka},{kb})/formula", "vdot(a,b) != Σ conj(a_ij) b_ij")
 
 
 def chk_linear(cfg, seed):
@@ -1075,9 +1122,10 @@ def run_check(ctx, kind, cfg, args, rep, **kw):
 
 
 PARTIAL = [
-    {"theorem": "QM.C02.kraus_roundtrip_partial",
-     "missing": "that the executable krausRaw (zero-eigenvalue filter, stable descending sort, phase convention, numpy eigh/sqrt as "
-                "parameters) produces a list with Σ|K>><<K| = Choi; covered by correspondence (gauge invariant, count) and oracle (order, phase)"},
+    {"theorem": "QM.C02.kraus_roundtrip",
+     "missing": "proved for the executable krausRaw under the explicit contract of numpy's eigh/sqrt (C = Σ λ v v^†, sqrt exact on kept "
+                "eigenvalues, filtered eigenvalues exactly 0); the phase convention of step 3 (unit-modulus factor) is not in the model "
+                "and is checked by the oracle; float accuracy of eigh is not modelled"},
     {"theorem": "QM.C02.toVarFromChoi_roundtrip",
      "missing": "stated for the value before truncate_hs (toVarFromChoi{Free,Eq}Raw); the executed toVarFromChoi additionally truncates the "
                 "whole HS matrix; forward_is_not_inverse is the regression witness of the former defect D3"},
@@ -1091,8 +1139,8 @@ def oracle(ctx, volume=1):
     names = QUICK_CFGS if ctx.quick else THOROUGH_CFGS
     if not ctx.partial:
         ctx.partial += PARTIAL
-        ctx.notes.append("column-major computational basis, process matrix and MProcess/Povm wrappers are covered by correspondence + oracle, "
-                         "not by theorems; Kraus conversions are compared through the gauge invariant Σ K⊗conj(K)")
+        ctx.notes.append("MProcess/Povm/State/Gate method wrappers are covered by correspondence + oracle, not by theorems; "
+                         "Kraus conversions are compared through the gauge invariant Σ K⊗conj(K)")
     for name in names:
         cfg = cfg_of(name)
         g = ctx.npgen(f"oracle-{name}-{volume}")
